@@ -684,7 +684,9 @@ ROOT_SCRIPTS = {
            ('sub_add_nic', 'w1', 'nic1'), ('sub_add_nic', 'w2', 'nic1'),
            ('sub_add_sub', ('w1', 'nic1-p1'), 'sub1', '100'),
            ('sub_add_link', 'l3', (('w1', 'nic1-p1'), ('w2', 'nic1-p1'), ('sw', 'sw-p1')), 'L2Path'),
-           ('sub_add_link', 'l1', (('w1', 'nic1-p2'), ('sw', 'sw-p2')), 'Patch')],
+           ('sub_add_link', 'l1', (('w1', 'nic1-p2'), ('sw', 'sw-p2')), 'Patch'),
+           # ... and the sub-interface itself is joined to a switch port by a plain link (no service port involved)
+           ('sub_add_link', 'l4', (('w1', 'sub1'), ('sw', 'sw-p3')), 'Patch')],
 }
 
 
@@ -1135,6 +1137,23 @@ def fail_events(model: TopoModel):
     ev.append(('fail', 'switch-bad-port-property'))
     ev.append(('fail', 'service-no-type'))
     ev.append(('fail', 'service-bad-property'))
+    # a multi-property update of an EXISTING element with one rejected value among good ones, at every position
+    targets = []
+    if names:
+        targets.append(('node', names[0]))
+    for s_ in tops[:1]:
+        targets.append(('service', s_))
+    for nn, i in allp[:1]:
+        targets.append(('port', nn, i.name))
+    for n_ in names:
+        if nodes[n_].type != NodeType.Facility and nodes[n_].components:
+            targets.append(('component', n_, sorted(nodes[n_].components.keys())[0]))
+            break
+    for l_ in sorted(model.t.links.keys())[:1]:
+        targets.append(('link', l_))
+    for tg in targets:
+        for pos in ('first', 'middle', 'last'):
+            ev.append(('fail', 'setprops-bad-among-good', tg, pos))
     if names:
         n0 = names[0]
         ev.append(('fail', 'type-outside-vocabulary', n0))
@@ -1363,6 +1382,22 @@ def _do_fail(model: TopoModel, ev):
         t.add_link(name=ev[2], node_id='id-lx', ltype=LinkType.Patch, interfaces=[model.port(*r) for r in ev[3]])
     elif kind == 'sub-node-without-id':
         t.add_node(name='nx', site='S1', ntype=NodeType.Server)
+    elif kind == 'setprops-bad-among-good':
+        tg, pos = ev[2], ev[3]
+        if tg[0] == 'node':
+            e = model.node(tg[1])
+        elif tg[0] == 'service':
+            e = model.service(tg[1])
+        elif tg[0] == 'port':
+            e = model.port(tg[1], tg[2])
+        elif tg[0] == 'component':
+            e = model.node(tg[1]).components[tg[2]]
+        else:
+            e = t.links[tg[1]]
+        good = [('details', 'new details'), ('capacities', Capacities(unit=3))]
+        bad = ('labels', 'not-a-labels-object')
+        order = {'first': [bad] + good, 'middle': good[:1] + [bad] + good[1:], 'last': good + [bad]}[pos]
+        e.set_properties(**dict(order))
     elif kind == 'facility-duplicate-interface-names':
         t.add_facility(name='fdup', site='S1', node_id=nid('fdup'),
                        interfaces=[('same', Labels(vlan='1'), Capacities(bw=1)), ('same', Labels(vlan='2'), Capacities(bw=1))])
@@ -1499,6 +1534,8 @@ def _check(self, pre, ev, outcome):
                 detail = ev[3]
             if ev[0] == 'fail' and ev[1] == 'peer-bad-argument':
                 detail = ev[4]
+            if ev[0] == 'fail' and ev[1] == 'setprops-bad-among-good':
+                detail = f'{ev[2][0]}/{ev[3]}'
             v.append((f'c09/{call}' + (f'/{detail}' if detail else ''),
                       f'{ev} raised {outcome[1:]} but the model changed: left behind {left}, removed {gone}, '
                       f'properties changed on {changed}, edges {len(qe)} vs {len(pe)}'))
